@@ -647,7 +647,7 @@ def split_top(s):
 
 def run(ctx):
     import collections
-    b = ctx.coq_build(["C19/AbiOut.v", "C19/AbiOutProofs.v", "C19/Mutability.v", "C19/PropsAbiOut.v"])
+    b = ctx.coq_build(["C19/AbiOut.v", "C19/AbiOutProofs.v", "C19/Mutability.v", "C19/SelectorInj.v", "C19/PropsAbiOut.v"])
     rnd = ctx.rng("contracts")
     ncontracts = 16 if ctx.tier == "quick" else 60
     contracts = [G.gen_contract(rnd) for _ in range(ncontracts)]
